@@ -44,6 +44,10 @@ def group_form(insts, chain, deps, special):
         if special == "non-instance":
             items.insert(len(items) // 2, "('not', 'an instance')")
         exp = "[%s]" % ", ".join(items)
+        if special == "generator":
+            exp = "(e for e in %s)" % exp      # `experiments` is documented as an iterable: a one-shot iterator is legal
+        elif special == "tuple":
+            exp = "tuple(%s)" % exp
     return "run_experiment_group(name='g', run='./r.sh', experiments=%s%s%s)\n" % (
         exp, ", chain_experiments=True" if chain else "", (", deps=%r" % (deps,)) if deps is not None else "")
 
@@ -115,7 +119,7 @@ def make(maxinst, args_pool=ARGS, names=NAMES):
         deps = DEPS[g.choose("deps", len(DEPS))]
         if not deps and g.flag("deps_omitted"):
             deps = None
-        special = ("", "non-instance", "none-experiments")[g.choose("special", 3)]
+        special = ("", "non-instance", "none-experiments", "generator", "tuple")[g.choose("special", 5)]
         gtext = group_form(insts, chain, deps, special)
         etext = reference_expansion(insts, chain, deps, special)
         A = run_project(g, gtext, "group")
@@ -155,7 +159,7 @@ def spaces(tier):
     goals = ["both forms rejected", "chained instances accepted", "shared deps accepted"]
     sp = [Space("inst2", make(2, args_pool=ARGS[:2], names=NAMES[:6]), "0..2 instances; names from {a, b, a again, group's own name, another task's name, invalid}; args 2, "
                 "options 2, parallelizable bit per instance; chain bit; deps {omitted, [], [:x], [:x,:y]}; {ok, non-instance element, "
-                "experiments=None}", depth=6, goals=goals, outside=[">3 instances"])]
+                "experiments=None, one-shot generator, tuple}", depth=6, goals=goals, outside=[">3 instances"])]
     if tier == "thorough":
         sp.append(Space("inst3", make(3), "0..3 instances, same pools", depth=7, tiers=("thorough",)))
     return sp
